@@ -57,7 +57,7 @@ def gen_prog(rng):
     inst = [c for c in cls_ids if w.instantiable(c)]
     calls = [{"pos": [rng.choice(inst) for _ in range(npos)], "kw": {}} for _ in range(8)]
     seq = [rng.randrange(len(calls)) for _ in range(rng.randint(10, 30))]
-    return {"spec": spec, "preds": preds, "defs": defs, "calls": calls, "seq": seq, "utab": utab}
+    return {"spec": spec, "preds": preds, "defs": defs, "calls": calls, "seq": seq, "utab": utab, "via_copy": rng.random() < 0.5}
 
 
 class ResolutionCounter:
@@ -91,11 +91,16 @@ def check(ctx, prog, stats):
 def check_counted(ctx, prog, stats, rc):
     w = world_from(prog["spec"], prog["preds"])
     b = progs.Built(w, prog["defs"], utab=prog.get("utab"))
+    # half of the programs are used through a copy: a function assembled from mixins (what variant / copy / a class with
+    # extend_super give), so that the no-op operations below meet a function that has parents
+    target = b.ov.copy() if prog.get("via_copy") else b.ov
+    _call = b.call
+    b_call = lambda vals: _call(vals, None, target)
     counter = w.pred_calls
     ok = {}
     # warm-up
     for i, call in enumerate(prog["calls"]):
-        out, entered = b.call([w.instance(c) for c in call["pos"]])
+        out, entered = b_call([w.instance(c) for c in call["pos"]])
         ok[i] = out[0] in ("run", "value")
     moved_during_warmup = counter[0]
     stats["warmup_hook_calls"] += moved_during_warmup
@@ -103,11 +108,11 @@ def check_counted(ctx, prog, stats, rc):
         call = prog["calls"][i]
         before = counter[0]
         rbefore = rc.n
-        out, entered = b.call([w.instance(c) for c in call["pos"]])
+        out, entered = b_call([w.instance(c) for c in call["pos"]])
         stats["evaluations"] += 1
         if ok[i]:
             stats["hits_expected"] += 1
-            case = {"spec": prog["spec"], "preds": prog["preds"], "defs": prog["defs"], "calls": prog["calls"], "seq": prog["seq"][: step + 1], "utab": prog.get("utab")}
+            case = {"spec": prog["spec"], "preds": prog["preds"], "defs": prog["defs"], "calls": prog["calls"], "seq": prog["seq"][: step + 1], "utab": prog.get("utab"), "via_copy": prog.get("via_copy")}
             if counter[0] != before:
                 ctx.violation(f"user class predicate consulted {counter[0] - before} more time(s) on a repeated call that had succeeded", case)
                 return
@@ -117,16 +122,25 @@ def check_counted(ctx, prog, stats, rc):
     # operations that do not change the set of methods must not throw the tables away: adding no mixin, adding the function to
     # itself, the read-only display helpers
     import io, contextlib
-    for noop in ("add_mixins()", "add_mixins(self)", "display_methods()", "display_resolution(args)"):
+    import inspect
+    for noop in ("add_mixins()", "add_mixins(self)", "display_methods()", "display_resolution(args)", "__doc__", "inspect.getdoc", "repr", "signature"):
         try:
             with contextlib.redirect_stdout(io.StringIO()):
                 if noop.startswith("add_mixins"):
-                    b.ov.add_mixins(*([b.ov] if noop.endswith("(self)") else []))
+                    target.add_mixins(*([target] if noop.endswith("(self)") else []))
                 elif noop == "display_methods()":
-                    b.ov.display_methods()
+                    target.display_methods()
+                elif noop == "__doc__":
+                    target.__doc__                       # the docstring of the Ovld object (help(), functools.wraps, doctest collectors)
+                elif noop == "inspect.getdoc":
+                    inspect.getdoc(target)
+                elif noop == "repr":
+                    repr(target), str(target)
+                elif noop == "signature":
+                    str(inspect.signature(target.dispatch).parameters)
                 else:
                     c0 = prog["calls"][prog["seq"][0]] if prog["seq"] else prog["calls"][0]
-                    b.ov.display_resolution(*[w.instance(c) for c in c0["pos"]])
+                    target.display_resolution(*[w.instance(c) for c in c0["pos"]])
         except Exception:   # a locked function refuses / the display helper is unavailable: nothing to observe
             continue
         for step, i in enumerate(prog["seq"][:8]):
@@ -134,14 +148,16 @@ def check_counted(ctx, prog, stats, rc):
                 continue
             call = prog["calls"][i]
             before, rbefore = counter[0], rc.n
-            b.call([w.instance(c) for c in call["pos"]])
+            b_call([w.instance(c) for c in call["pos"]])
             stats["evaluations"] += 1
             stats["calls_after_noop_operations"] += 1
             if counter[0] != before or rc.n != rbefore:
                 ctx.violation(f"after {noop} (no method added) a call that had succeeded consults hooks / resolves again ({counter[0] - before} predicate calls, {rc.n - rbefore} resolutions)",
-                              {"spec": prog["spec"], "preds": prog["preds"], "defs": prog["defs"], "calls": prog["calls"], "seq": prog["seq"][: step + 1], "utab": prog.get("utab"), "noop": noop})
+                              {"spec": prog["spec"], "preds": prog["preds"], "defs": prog["defs"], "calls": prog["calls"], "seq": prog["seq"][: step + 1], "utab": prog.get("utab"), "noop": noop, "via_copy": prog.get("via_copy")})
                 return
     # a registration must allow recomputation (and must not break anything): counters may move again
+    if prog.get("via_copy"):
+        return            # the parent of a used copy is locked: nothing to register there
     before = counter[0]
     extra = dict(prog["defs"][0]); extra["id"] = 99
     b.register(extra)
